@@ -300,3 +300,23 @@ _amend("C15", "technique", "ordering by dominance in PlyLexer.__new__", "orderin
 _amend("C19", "level", "Anchoring of the marker file-name comparison in all three filters (sibling cross-check)", "Anchoring of the marker file-name comparison in all three filters (sibling cross-check; both sides unprojected)")
 _amend("C13", "level", "Pair agreement and opener dominance at all 7 _discard_contents sites", "Pair agreement (or opener membership, when the skipper looks the closer up itself) and opener dominance at all 7 _discard_contents sites")
 _amend("C03", "level", "are right-anchored ([-1] own name, [-2] enclosing class).", "are right-anchored ([-1] own name, [-2] enclosing class); a plain segment is named by the NAME token just matched.")
+
+# ---- round 5 (DESIGN 9.10)
+_amend("C02", "level", "whole-argument condition);", "whole-argument condition, the guard evaluated for every first token of a type-id: name, fundamental type, cv-qualifier);")
+_amend("C02", "level", "the grouping-parenthesis test admits every prefix operator the declarator parser handles;",
+       "the grouping-parenthesis test admits every prefix operator the declarator parser handles and every parameter-list parse of the declarator loop comes after it (abstract declarators as template arguments); "
+       "every type-id position (parameter, alias, template argument) reads the array suffix;")
+_amend("C13", "level", "and linear use / push / LIFO / empty-stack return of the balanced consumer.",
+       "and the balanced consumer decided by interpreting its source over every script of bracket tokens up to length 4 (quick) / 6 (thorough) against a reference stack machine: returns right after the "
+       "balancing closer with every token kept in order, a ']]' token closes two pending '[', a tolerated '<' / '>' is matched with the innermost pending bracket of its kind.")
+_amend("C13", "technique", "linear-use analysis, LIFO API-discipline check", "linear-use analysis, abstract interpretation of the two bracket consumers over enumerated token scripts")
+_amend("C14", "level", "closer set vs. token maps, LIFO use of the expectation stack,", "closer set vs. token maps, the balanced consumer interpreted over bracket scripts (shared with C13),")
+_amend("C06", "level", "bracket mismatch,", "bracket mismatch (the balanced consumer interpreted over bracket scripts: raises at the first closer that is not the innermost expectation),")
+_amend("C11", "level", "and the lookup order: no token of the declaration is consumed between the trailing lookup and the documented object.",
+       "and the lookup order: no token of the declaration is consumed between the trailing lookup and the documented object, and no separator (',' ';' '}') before it.")
+_amend("C12", "level", "extern aliasing,", "extern aliasing, the doc-comment leak channels (C11's single attribution, reset after dispatch and trailing-scan rules under this property's id),")
+_amend("C16", "level", "Complete finite decision for all ordered pairs (quick) and triples (thorough) of token classes:",
+       "Complete finite decision for all ordered pairs (quick; plus the triples of fixed-text tokens that spell a longer token) and all triples (thorough) of token classes:")
+_amend("C18", "level", "every call site passes a constant format whose conversions match its values", "every call site passes a constant format whose conversions match its values in number and, where the value is certainly text, in kind")
+_amend("C19", "level", "and the lexer's re-basing on the kept line markers (shared with C10).", "the lexer's re-basing on the kept line markers (shared with C10), and the preprocessor closures keeping nothing from one file to the next (shared with C15).")
+_amend("C20", "level", "and its exact skip conditions (control dependences of the emitting statement).", "its exact skip conditions (control dependences of the emitting statement), and no state kept from one field or object to the next.")
